@@ -219,9 +219,11 @@ func (cg *CG) NextDirection(loc *Location, dir []float64) (stepSize float64) {
 	// Compute the scaling factor β_k even when restarting, because cg.Variant
 	// may be keeping an inner state that needs to be updated at every iteration.
 	beta := cg.Variant.Beta(loc.Gradient, cg.gradPrev, cg.dirPrev)
-	if beta == 0 {
+	if beta == 0 || math.IsNaN(beta) || math.IsInf(beta, 0) {
 		// β_k == 0 means that the steepest descent direction will be taken, so
-		// indicate that the method is in fact being restarted.
+		// indicate that the method is in fact being restarted. A β_k that is
+		// not finite (the gradient or the direction did not change between
+		// two iterations) would poison the direction, so restart as well.
 		restart = true
 	}
 	if !restart {
